@@ -118,6 +118,8 @@ def run_shards(prop, tier, seed, binpath, extra_env=None, run_filter=None, nshar
         env = goenv()
         env.update({"VERIF_TIER": tier, "VERIF_SEED": str(seed), "VERIF_SHARD": str(i), "VERIF_SHARDS": str(n),
                     "VERIF_STATS": os.path.join(wd, "stats.%d.json" % i)})
+        if c["race"]:
+            env["GORACE"] = "halt_on_error=1 exitcode=66 log_path=" + os.path.join(wd, "race.%d" % i)
         if extra_env:
             env.update(extra_env)
         cmd = [binpath, "-test.timeout=0", "-test.count=1", "-rapid.nofailfile", "-rapid.shrinktime=20s"]
@@ -236,6 +238,24 @@ def run_property(prop, tier, seed):
     for i in range(n):
         r = results.get(i)
         if r == 0:
+            continue
+        if r == 66:
+            # the race detector stopped the process: the report is the replay
+            keep = os.path.join(ROOT, "replays", prop)
+            os.makedirs(keep, exist_ok=True)
+            import glob
+            reports = sorted(glob.glob(os.path.join(wd, "race.%d.*" % i)))
+            dst = os.path.join(keep, "race-shard%d-%s.log" % (i, tier))
+            with open(dst, "w") as out:
+                for rp in reports:
+                    out.write(open(rp).read())
+                out.write(open(os.path.join(wd, "log.%d.txt" % i)).read()[-4000:])
+            head = ""
+            try:
+                head = " / ".join([l.strip() for l in open(dst).read().splitlines() if "by goroutine" in l or l.strip().startswith("github.com/z7zmey")][:4])
+            except Exception:
+                pass
+            viols.append({"property": prop, "check": "data-race", "message": "the Go race detector reported a data race: " + head, "replay": dst})
             continue
         if r == 1:
             # a failing test binary must have recorded a violation; if not, the log is the replay
